@@ -27,10 +27,11 @@ THEOREMS = [
 
 PER_CELL = ("imp", "vol", "u", "lat", "fill")
 
-# how many words of one affected input an edit may change (own number, a reference, a value with its key)
+# how many words of one affected input an edit may change (own number, a reference, a value with its key;
+# an importance edit on a shared entry `imp:n,p=1` has to split it into `imp:p=1 imp:n=x`: key and value of both)
 BUDGET = {
     "cell_number": 1, "surface_number": 1, "material_number": 1, "transform_number": 1, "universe_number": 2,
-    "importance": 2, "importance_all": 4, "volume": 2, "atom_density": 1, "mass_density": 1,
+    "importance": 6, "importance_all": 10, "volume": 2, "atom_density": 1, "mass_density": 1,
     "surface_constant": 1, "location": 1, "radius": 1, "fraction": 1, "displacement": 1,
 }
 
